@@ -64,6 +64,11 @@ def fmtMeta : Option Meta → String
     let sni := if m.sni.isEmpty then "-" else m.sni
     s!"{m.protocol.rank} {fmtChannel m.channel} {fmtChannel m.host.1}:{m.host.2} {m.creds.getD "-"} {sni}"
 
+/-- what a live client can observe: protocol, channel, the entry whose certificate was presented -/
+def fmtMetaLive : Option Meta → String
+  | none => "refused"
+  | some m => s!"{m.protocol.rank} {fmtChannel m.channel} {fmtChannel m.host.1}:{m.host.2}"
+
 def sniTok (s : String) : String := if s == "-" then "" else s
 
 partial def runEvents (enabled : List Proto) (rp : Bool) (cur : Cfg) (n : Nat) (toks : List String)
@@ -93,6 +98,30 @@ def c05 (toks : List String) : String :=
         fmtMeta (select (mkCfg (parseEnabled e) (rp == "1") h) (alpn.map parseAlpnTok) (sniTok sni))
       | _ => "bad-op"
     | none => "bad-op"
+  | "tcp" :: e :: rp :: rest =>
+    match parseHosts rest with
+    | some (h, rest) =>
+      match parseList rest with
+      | some (alpn, [sni]) =>
+        fmtMeta (tcpAccept (mkCfg (parseEnabled e) (rp == "1") h) (alpn.map parseAlpnTok) (if sni == "-" then none else some sni))
+      | _ => "bad-op"
+    | none => "bad-op"
+  | "tcplive" :: e :: rp :: rest =>
+    match parseHosts rest with
+    | some (h, rest) =>
+      match parseList rest with
+      | some (alpn, [sni]) =>
+        fmtMetaLive (tcpAccept (mkCfg (parseEnabled e) (rp == "1") h) (alpn.map parseAlpnTok) (if sni == "-" then none else some sni))
+      | _ => "bad-op"
+    | none => "bad-op"
+  | "quiclive" :: e :: rp :: rest =>
+    match parseHosts rest with
+    | some (h, [sni]) => fmtMetaLive (quicAccept (mkCfg (parseEnabled e) (rp == "1") h) (if sni == "-" then none else some sni))
+    | _ => "bad-op"
+  | "quic" :: e :: rp :: rest =>
+    match parseHosts rest with
+    | some (h, [sni]) => fmtMeta (quicAccept (mkCfg (parseEnabled e) (rp == "1") h) (if sni == "-" then none else some sni))
+    | _ => "bad-op"
   | "run" :: e :: rp :: rest =>
     match parseHosts rest with
     | some (h, n :: rest) =>
